@@ -27,8 +27,24 @@ pub enum Val {
 	/// in schema order
 	Record(Vec<Val>),
 	Union(u16, Box<Val>),
-	Decimal { unscaled: i128, scale: u32 },
+	Decimal {
+		#[serde(with = "i128_str")]
+		unscaled: i128,
+		scale: u32,
+	},
 	Duration([u32; 3]),
+}
+
+/// serde_json's `Value` cannot hold an i128: keep it as text
+mod i128_str {
+	use serde::{Deserialize, Deserializer, Serializer};
+	pub fn serialize<S: Serializer>(v: &i128, s: S) -> Result<S::Ok, S::Error> {
+		s.serialize_str(&v.to_string())
+	}
+	pub fn deserialize<'de, D: Deserializer<'de>>(d: D) -> Result<i128, D::Error> {
+		let s = String::deserialize(d)?;
+		s.parse().map_err(serde::de::Error::custom)
+	}
 }
 
 #[derive(Clone, Copy, Debug)]
@@ -321,6 +337,9 @@ pub enum PoisonKind {
 	MissingField,
 	/// (record node) the last presented field is presented twice; elsewhere behaves like `Err`
 	DupField,
+	/// (array / bytes-as-sequence node) the sequence is begun, half of its elements are presented,
+	/// then the caller fails without calling `end()`; elsewhere behaves like `Err`
+	AbortMidSeq,
 }
 
 #[derive(Clone, Copy, Debug, PartialEq, Eq, Serialize, Deserialize)]
@@ -396,6 +415,25 @@ impl<'a> serde::Serialize for Presented<'a> {
 					PoisonKind::WrongType => return s.serialize_u128(u128::MAX),
 					PoisonKind::MissingField | PoisonKind::DupField if !is_record => {
 						return Err(S::Error::custom("poisoned value"))
+					}
+					PoisonKind::AbortMidSeq => {
+						return match (ctx.env.resolve(self.ty), self.val) {
+							(Ty::Array(t), Val::Array(items)) => {
+								let mut seq = s.serialize_seq(None)?;
+								for it in &items[..items.len() / 2] {
+									seq.serialize_element(&self.child(it, t))?;
+								}
+								Err(S::Error::custom("poisoned value (sequence abandoned)"))
+							}
+							(Ty::Bytes, Val::Bytes(b)) | (Ty::Fixed { .. }, Val::Fixed(b)) if ctx.cfg.bytes_as_seq => {
+								let mut seq = s.serialize_seq(None)?;
+								for byte in &b[..b.len() / 2] {
+									seq.serialize_element(byte)?;
+								}
+								Err(S::Error::custom("poisoned value (byte sequence abandoned)"))
+							}
+							_ => Err(S::Error::custom("poisoned value")),
+						};
 					}
 					k => record_poison = Some(k),
 				}
